@@ -143,6 +143,17 @@ func genCase(t *rapid.T) Case {
 			}
 		}
 	}
+	// by construction: more than 2 MiB of payload are written after the fault
+	// became active (rapid's small-value bias would otherwise keep most
+	// workloads below that); top-up puts of 16-32 KiB
+	for bytesAfter(&c, c.Fault.TriggerAt) < 2<<20+200<<10 {
+		c.Steps = append(c.Steps, Step{Op: "put", K: rapid.IntRange(0, nk-1).Draw(t, "k_top"),
+			V: &drive.Val{Len: rapid.IntRange(16*1024, 32*1024).Draw(t, "vlen_top"), Tag: tag}})
+		tag++
+		if len(c.Steps)%5 == 0 {
+			c.Steps = append(c.Steps, Step{Op: "get", K: rapid.IntRange(0, nk-1).Draw(t, "k_topget")})
+		}
+	}
 	c.Healthy = rapid.IntRange(0, 2).Draw(t, "healthy")
 	c.HB.IntervalMs = rapid.SampledFrom([]int{100, 200, 500}).Draw(t, "hbint")
 	c.HB.TimeoutMs = rapid.SampledFrom([]int{1000, 1000, 2000}).Draw(t, "hbto")
